@@ -150,6 +150,10 @@ def chkBld (a : List String) : String :=
         else if C16.holdsObs { length := len, header := hdr, recs := rs, msg := m } then "holds" else "fails length-bookkeeping"
       | none => "bad-op"
     | _, _, _, _ => "bad-op"
+  | ["obs"], [_, _, _, _, _, _, "retained-records-changed"] =>
+    -- the list of records a caller took out of the set before a reset changed under the reset or the reuse of the
+    -- set: a reset set does not behave like a new one (a new set shares nothing with the old message)
+    "fails retained-records-changed"
   | _, _ => "na"
 
 /-- engine "e2e": exporter model composed with the collector model (transports are the identity on
@@ -178,6 +182,31 @@ def engE2E (s : DState) (a : List String) : DState × String :=
           | .ok m => (s', s!"sent {n} {(msgToken m).drop 3} timeok addrok")
           | _ => (s', s!"sent {n} none")
     | _, _, _ => (s, "bad-op")
+  | "burst" :: path :: tid :: recs =>
+    -- k data sets sent back-to-back: the model's transports neither lose nor reorder, so all k messages
+    -- are delivered, in the order of the sends
+    match tid.toNat?, recs.mapM parseRecsDesc with
+    | some sid, some rss =>
+      if rss.isEmpty then (s, "bad-op") else
+      let step := fun (acc : DState × List String × List String) (rs : List (Nat × List Elem)) =>
+        let s := acc.1
+        let d : SetDesc := { ty := .data, setId := sid, recs := rs }
+        match d.build (path == "2" || path == "2r") with
+        | none => (s, acc.2.1 ++ ["err"], acc.2.2)
+        | some b =>
+          let (st', r) := s.e2eExp.sendBuilt 0 b
+          match r with
+          | .err => ({ s with e2eExp := st' }, acc.2.1 ++ ["err"], acc.2.2)
+          | .ok n w =>
+            let (c', o) := decodePacket fastLookup s.e2eMode s.e2eColl w
+            let s' := { s with e2eExp := st', e2eColl := c' }
+            match o with
+            | .ok m => (s', acc.2.1 ++ [toString n], acc.2.2 ++ [s!"{(msgToken m).drop 3} timeok addrok"])
+            | _ => (s', acc.2.1 ++ [toString n], acc.2.2)
+      let r := rss.foldl step (s, [], [])
+      let ms := if r.2.2.isEmpty then "none" else " | ".intercalate r.2.2
+      (r.1, s!"burst {",".intercalate r.2.1} {ms}")
+    | _, _ => (s, "bad-op")
   | _ => (s, "bad-op")
 
 /-- spec-side judgement of a refused SendSet: C01 quantifies over sets that fit one message, of
@@ -197,23 +226,69 @@ def refusalVerdict (tpls : List (Nat × List IE)) (ty : SetType) (sid : Nat) (rs
       else "fails send-error"
   | _ => "na"
 
-abbrev E2ESpecState := Nat × List (Nat × List IE)
+abbrev E2ESpecState := E2ESpec
+
+/-- one delivered data message - the tokens after the sequence number: domain, kind, records, export
+    time, exporter address - against the records handed to SendSet: same observation domain, same
+    number of records, every value identical (addresses in canonical length) -/
+def judgeData (dom : Nat) (rs : List (Nat × List Elem)) (toks : List String) : String :=
+  match toks with
+  | [d, kind, vals, tk, ak] =>
+    if d.toNat? != some dom then "fails domain"
+    else if kind != "data" then "fails kind"
+    else
+      let expected := rs.map fun r => r.2.map fun e => C15.canon e.1 e.2
+      match parseRecords vals with
+      | some got =>
+        if got.length != expected.length then "fails record-count"
+        else if got != expected then "fails values"
+        else if tk != "timeok" then "fails export-time"
+        else if ak != "addrok" then "fails export-address"
+        else "holds"
+      | none => "fails shape"
+  | d :: _ => if d.toNat? != some dom then "fails domain" else "fails shape"
+  | _ => "fails shape"
+
+/-- the deliveries of a burst, in arrival order, against the sets of the burst in sending order
+    (`sets`: index, the sequence number the message of that set must carry, its records): every
+    delivered message is the message of a set sent later than the set of the previous delivery -
+    found by its sequence number - and equals it. `next` = index of the first set not yet passed. -/
+def judgeBurst (dom : Nat) (sets : List (Nat × Nat × List (Nat × List Elem))) : Nat → List (List String) → String
+  | _, [] => "holds"
+  | next, m :: rest =>
+    match m with
+    | _len :: _time :: sq :: toks =>
+      match sq.toNat? with
+      | none => "fails shape"
+      | some q =>
+        match sets.find? (fun x => x.1 ≥ next && x.2.1 == q) with
+        | some (i, _, rs) =>
+          let v := judgeData dom rs toks
+          if v == "holds" then judgeBurst dom sets (i + 1) rest else v
+        | none =>
+          match sets.find? (fun x => x.2.1 == q) with
+          | some (i, _, _) => if i + 1 == next then "fails duplicate" else "fails out-of-order"
+          | none => "fails unknown-message"
+    | _ => "fails shape"
 
 /-- `chk e2e <op> | <impl obs>`: C01 stated directly on what was handed to SendSet and what the
     collector delivered: same observation domain, same template fields (id, enterprise, type, length,
-    name) in order, same number of records, every value identical (addresses in canonical length) -/
+    name) in order, same number of records, every value identical (addresses in canonical length).
+    A burst (k sets sent before the application reads anything): over tcp/tls all k messages, in order;
+    over udp/dtls a datagram may be lost, but what is delivered is a subsequence of what was sent -/
 def chkE2E (st : E2ESpecState) (a : List String) : E2ESpecState × String :=
-  let dom := st.1
+  let dom := st.dom
   let (op, obs) := splitBar a
   match op with
-  | ["open", _, _, _, d] => (((d.toNat?).getD 0, []), "holds")
+  | ["open", tr, _, _, d] => ({ dom := (d.toNat?).getD 0, tpls := [], stream := tr == "tcp" || tr == "tls", seq := none }, "holds")
   | ["close"] => (st, if obs == ["ok"] then "holds" else "fails delivered-message-changed-later")
   | ["send", _path, t, setid, recs] =>
     match parseSetType t, parseRecsDesc recs with
     | some ty, some rs =>
       match obs with
       | ["builderr"] => (st, "na")
-      | "sent" :: _n :: _len :: _time :: _seq :: d :: kind :: rest =>
+      | "sent" :: _n :: _len :: _time :: sq :: d :: kind :: rest =>
+        let st := { st with seq := sq.toNat? }
         if d.toNat? != some dom then (st, "fails domain")
         else if kind == "tpl" then
           match rest, rs with
@@ -223,27 +298,46 @@ def chkE2E (st : E2ESpecState) (a : List String) : E2ESpecState × String :=
             else if parseIEs ies != some (es.map (·.1)) then (st, "fails template-fields")
             else if tk != "timeok" then (st, "fails export-time")
             else if ak != "addrok" then (st, "fails export-address")
-            else ((dom, if st.2.any (·.1 == tid) then st.2 else st.2 ++ [(tid, es.map (·.1))]), "holds")
+            else ({ st with tpls := if st.tpls.any (·.1 == tid) then st.tpls else st.tpls ++ [(tid, es.map (·.1))] }, "holds")
           | _, _ => (st, "fails shape")
         else if kind == "data" then
-          match rest with
-          | [vals, tk, ak] =>
-            if ty != .data then (st, "fails kind")
-            else
-              let expected := rs.map fun r => r.2.map fun e => C15.canon e.1 e.2
-              match parseRecords vals with
-              | some got =>
-                if got.length != expected.length then (st, "fails record-count")
-                else if got != expected then (st, "fails values")
-                else if tk != "timeok" then (st, "fails export-time")
-                else if ak != "addrok" then (st, "fails export-address")
-                else (st, "holds")
-              | none => (st, "fails shape")
-          | _ => (st, "fails shape")
+          if ty != .data then (st, "fails kind")
+          else (st, judgeData dom rs (d :: kind :: rest))
         else (st, "fails shape")
-      | ["sent", _, "none"] => (st, "fails not-delivered")
-      | ["err"] => (st, refusalVerdict st.2 ty ((setid.toNat?).getD 0) rs)
-      | _ => (st, "fails shape")
+      | ["sent", _, "none"] => ({ st with seq := none }, "fails not-delivered")
+      | ["err"] => ({ st with seq := none }, refusalVerdict st.tpls ty ((setid.toNat?).getD 0) rs)
+      | _ => ({ st with seq := none }, "fails shape")
+    | _, _ => (st, "bad-op")
+  | "burst" :: _path :: tid :: recs =>
+    match tid.toNat?, recs.mapM parseRecsDesc with
+    | some sid, some rss =>
+      match obs with
+      | ["builderr"] => (st, "na")
+      | "burst" :: ns :: deliv =>
+        let ns := ns.splitOn ","
+        if ns.length != rss.length || deliv.isEmpty then ({ st with seq := none }, "fails shape")
+        else
+          let refused := (ns.zip rss).filter (·.1 == "err")
+          if !refused.isEmpty then
+            -- a refused set of the burst is judged as a refused `send`; nothing more is said about the rest
+            let bad := refused.any fun p => refusalVerdict st.tpls .data sid p.2 != "na"
+            ({ st with seq := none }, if bad then "fails send-error" else "na")
+          else
+            match st.seq with
+            | none => (st, "na")
+            | some s0 =>
+              -- message i carries the counter after the records of sets 1..i
+              let cum := rss.foldl (fun (acc : Nat × List Nat) rs =>
+                let c := (acc.1 + rs.length) % 4294967296
+                (c, acc.2 ++ [c])) (s0, [])
+              let sets := (List.range rss.length).zip (cum.2.zip rss)
+              let msgs := if deliv == ["none"] then [] else splitBars deliv
+              let st' := { st with seq := some cum.1 }
+              let v := judgeBurst dom sets 0 msgs
+              if v != "holds" then (st', v)
+              else if st.stream && msgs.length != rss.length then (st', "fails not-delivered")
+              else (st', "holds")
+      | _ => ({ st with seq := none }, "fails shape")
     | _, _ => (st, "bad-op")
   | _ => (st, "na")
 
